@@ -463,3 +463,9 @@ func PlayTx(c *chainsim.Chain, t TxSpec) *chainsim.TxResult {
 	}
 	return c.Deliver(chainsim.TxBytes(tx))
 }
+
+// StoreOp returns a random mutating call on the store realm (exported for checks that build their own sequences).
+func StoreOp(r *rand.Rand) MsgSpec { return storeOp(r) }
+
+// PeerOp returns a random call on the peer realm.
+func PeerOp(r *rand.Rand) MsgSpec { return peerOp(r) }
